@@ -54,6 +54,7 @@ let parse_arg tok =
   let kind = match slot_kind slot with
     | "b" -> DBool | "i" -> DInt | "s" -> DStr | "oi" -> DOptInt | "vi" -> DVecInt | "vs" -> DVecStr
     | "lc" -> DLevel
+    | "af" -> DStr        (* the argument that names an argument file: a callable with a value, no destination *)
     | k -> raise (Unsupported ("slot kind " ^ k)) in
   let idx = int_of_string (after (slot_kind slot) slot) in
   let dflt_init = match kind with
@@ -154,7 +155,7 @@ let () =
           (try
              let members = ref [] in   (* (is_group, flags, args rev, cons rev) newest first *)
              let argv = ref [] and file = ref None and env = ref None and sline = ref None
-             and pinned = ref false and pinned_grp = ref false and pinned_end = ref false in
+             and pinned = ref false and pinned_grp = ref false and pinned_end = ref false and xfiles = ref [] in
              let push_arg t = match !members with
                | (g, f, a, c) :: r -> members := (g, f, t :: a, c) :: r | [] -> raise (Unsupported "arg before handler") in
              let push_con t = match !members with
@@ -175,6 +176,11 @@ let () =
                  else if t = "model:pinned-group-values" then pinned_grp := true
                  else if t = "model:pinned-group-end" then pinned_end := true
                  else if starts "prog:" t then ()
+                 else if starts "xfile:" t then
+                   (match String.split_on_char ':' t with
+                    | [_; n; cnt] -> xfiles := (str_of_string (unhex n), str_of_string (unhex cnt)) :: !xfiles
+                    | _ -> raise (Unsupported "xfile token"))
+                 else if starts "S:" t then raise (Unsupported "sub-group")
                  else if starts "order:" t then ()   (* definition order across members: no influence on the model *)
                  else if t = "out:usage" then raise (Unsupported "usage")) toks;
              let members = List.rev !members in
@@ -240,12 +246,23 @@ let () =
                let (c, inits, slots, flags) = List.hd built in
                let file = if flags land 0x10 <> 0 then !file else None in
                let env = if flags land 0x20 <> 0 then !env else None in
-               let r = match !sline with
-                 | Some l -> eval_string c inits (str_of_string l)
-                 | None -> eval_sources c inits (Option.map str_of_string file) (Option.map str_of_string env)
-                             (List.map str_of_string !argv) in
+               (* index of the argument-file argument (slot af<n>), if one is defined *)
+               let rec af_index i = function
+                 | [] -> None
+                 | sl :: r -> if slot_kind sl = "af" then Some i else af_index (i + 1) r in
+               let r = match !sline, af_index 0 slots with
+                 | Some l, None -> eval_string c inits (str_of_string l)
+                 | Some _, Some _ -> raise (Unsupported "argument file argument with evalArgumentString")
+                 | None, None -> eval_sources c inits (Option.map str_of_string file) (Option.map str_of_string env)
+                                   (List.map str_of_string !argv)
+                 | None, Some i ->
+                     eval_sources_af c { af_idx = nat_of_int i; af_files = List.rev !xfiles } inits
+                       (Option.map str_of_string file) (Option.map str_of_string env) (List.map str_of_string !argv) in
                (match r with
                 | Ok s ->
+                    let shown = List.filter (fun (sl, _) -> slot_kind sl <> "af") (List.combine slots s.arts) in
+                    let slots = List.map fst shown in
+                    let s = { s with arts = List.map snd shown } in
                     let vals = List.sort compare (show slots s.arts) in
                     Printf.printf "%s ok %s ## -\n" id (String.concat " " vals)
                 | Err e -> Printf.printf "%s err ## %s\n" id (err_name e)
